@@ -36,7 +36,7 @@ var paramPool = []string{"a", "b", "x", "m", "c", "s", "i"}
 var letPool = []string{"a", "b", "x", "c", "s", "v"}
 var loopPool = []string{"i", "v", "a"}
 var textPool = []string{"t", "u", "w", "<b>", "&", "'q'", "z", "a b", " l", "r ", "{x}", "n\nn", "-"}
-var strLits = []string{"p", "<i>", "q&r", "", "k"}
+var strLits = []string{"p", "<i>", "q&r", "", "k", "s\"q", "b\\s"}
 
 type gscope struct {
 	names map[string]bool // visible names
